@@ -30,6 +30,7 @@ type Gen struct {
 	obsLabels                                         []int
 	openQueries                                       []int
 	customEvents                                      []int
+	dumpEnts                                          map[int][]int
 
 	// statistics for the evidence file
 	Seqs        int            `json:"sequences"`
@@ -311,6 +312,7 @@ func (g *Gen) prelude() {
 	rels := []int{1, 2, 2, 128}
 	g.emit(fmt.Sprintf("world %d %d %d", caps[g.pick(len(caps))], rels[g.pick(len(rels))], g.cfg.maxComps))
 	g.nextEnt, g.nextFilter, g.nextObs, g.nextQuery, g.nextDump = 0, 0, 0, 0, 0
+	g.dumpEnts = nil
 	g.ents, g.filterLabels, g.typedFilters, g.obsLabels, g.openQueries = nil, nil, nil, nil, nil
 
 	// component registration: random order, fillers spread the IDs over the mask words
@@ -961,8 +963,39 @@ func (g *Gen) opEmit() bool {
 
 func (g *Gen) opDumpLoad() bool {
 	d := g.nextDump
+	// sometimes roll back to an OLDER snapshot again: a dump must stay valid however the world
+	// that loaded it was changed afterwards
+	if d > 0 && g.chance(0.35) {
+		old := g.pick(d)
+		if saved, ok := g.dumpEnts[old]; ok {
+			g.drainQueries()
+			g.emit("reset")
+			for _, l := range g.typedFilters {
+				g.h.filters[l].cached = false
+			}
+			g.ents = nil
+			g.emit(fmt.Sprintf("load d%d", old))
+			if g.h.lastOK {
+				g.ents = append([]int(nil), saved...)
+				for i := 0; i < 4 && len(saved) > 0; i++ {
+					g.emit(fmt.Sprintf("alive e%d", saved[g.pick(len(saved))]))
+				}
+				for i := 0; i < 2; i++ {
+					l := g.nextEnt
+					g.nextEnt++
+					g.ents = append(g.ents, l)
+					g.emit(fmt.Sprintf("new0 e%d", l))
+				}
+			}
+			return true
+		}
+	}
 	g.nextDump++
 	g.emit(fmt.Sprintf("dump d%d", d))
+	if g.dumpEnts == nil {
+		g.dumpEnts = map[int][]int{}
+	}
+	g.dumpEnts[d] = append([]int(nil), g.ents...)
 	if g.chance(0.7) {
 		g.drainQueries()
 		g.emit("reset")
